@@ -293,7 +293,7 @@ fn main() {
     vh_hooks::install();
     let ctx = Ctx::from_args("C21", Level::ModelChecking);
     // (number of remotes, depth bound) explored one after the other
-    let configs: Vec<(usize, usize)> = ctx.pick(vec![(1, 7)], vec![(1, 9), (2, 6)]);
+    let configs: Vec<(usize, usize)> = ctx.pick(vec![(1, 7), (2, 7)], vec![(1, 9), (2, 8)]); // two remotes at depth >= 7 are needed for "both idled out, neither reaped, request for the second, then for the first" (seeded change C21-seed35)
     ctx.set_rule("every sequence of stimuli {resolve_remote with address, resolve_remote without address, direct RemoteInfo through the shared sender map (per remote), advance 61 s, release the oldest actor parked before inbox.close(), one poll of cleanup} up to the depth bound, each executed from scratch on a fresh RemoteMap under the paused clock with a settle (run to quiescence) after every stimulus and a final drain; a sequence whose last stimulus had no effect (no event, no gate/sender change, nothing accepted, the Debug fingerprint of the real RemoteMap unchanged, and — for the 61 s advance — no state instance inside its main loop whose timers it could move) is evaluated but not extended; distinct = (instance counts, leftover hand-offs, direct-send results) x set of answers");
     ctx.assume("single-threaded runtime: interleavings inside one poll exist only at the gate before inbox.close(); AddConnection (needs a live QUIC connection) shares send_to_actor with resolve_remote and is not driven; no address-lookup service configured, so a resolve without any known address is answered with an error at once");
     ctx.bound("remotes_x_depth", &configs);
